@@ -59,6 +59,20 @@ CHECKS.update({
    note=BUF_NOTE),
 })
 
+SCHED_NOTE = ("Trusted base: shuttle 0.9.3 (SC interleavings; every atomic access of the crate is a scheduling point via hook H1/H2), the rt::atomic "
+              "happens-before ledger (C++20 release sequences over the source orderings), the value model + live-handle registry of sim-sched/sched/src/prog.rs, "
+              "SimAlloc, and for the Miri tier: Miri's scheduler, weak-memory emulation and data-race detector (nightly 2026-05-03). Programs: 2-4 tasks x <=6 ops.")
+CHECKS.update({
+ "C05": dict(engine="E-sched (+E-miri in thorough)", cat="exploration", ref="DESIGN.md §5 C05",
+   technique="deterministic simulation: seeded schedule search (uniform random / PCT / burst schedulers implementing shuttle's Scheduler trait) over generated multi-task programs on the crate's real atomics; per-task value+address model, live-handle registry vs. allocator ledger; replay = recorded decisions minimised to preemption directives",
+   text="Programs targeting the promotion race (several tasks cloning through one &Bytes), the last-reference race and the unique-owner race (try_into_mut / Into<BytesMut> / Into<Vec> / reclaiming reserve vs. droppers and cloners) on every shared representation; each task checks bytes and address, a zero-copy exclusive result must find no other live handle on the buffer and then overwrites it, every block is freed exactly once and the ledger is empty at the end.",
+   note=SCHED_NOTE),
+ "C06": dict(engine="E-miri + E-sched HB ledger", cat="exploration", ref="DESIGN.md §5 C06",
+   technique="deterministic simulation: (1) the same programs on std threads under Miri, one -Zmiri-seed = one execution (Miri's scheduler, stale-value weak-memory emulation, C11 data-race detector, leak check); (2) ordering-aware vector-clock ledger inside the shuttle runs: happens-before recomputed from the orderings written in the source, checked at every deallocation, exclusive overwrite and reclaim",
+   text="shuttle alone treats every ordering as SeqCst, so a weakened Release/Acquire is invisible to it; the ledger (sound on SC executions, ~10^5 executions/s, minimisable schedules) and Miri (real C11 semantics incl. non-atomic accesses of the crate itself, ~10 executions/s) decide together whether every use of buffer and control block happens-before its deallocation or exclusive reuse.",
+   note=SCHED_NOTE),
+})
+
 NOT_YET = {
  "C05": "not yet claimed: E-sched (shuttle) check under construction",
  "C06": "not yet claimed: E-miri / HB-ledger check under construction",
